@@ -1644,7 +1644,25 @@ def run(ck):
                'D4 pack moves vdata and edata together under the occupancy test, records vtab[i]=j before advancing j, truncates both tables, clears holes, rewrites every stored neighbour id and every vertex-bearing field through vtab after the table is complete',
                'D5 both Graph types derive Clone and PartialEq, own their data (no shared / interior-mutable field types) and keep every field private',
                'D6 every field accessor touches the field of its name (trait defaults over VData, both back ends\' inputs/outputs/scalar accessors); the vector back end\'s coordinate overrides agree with the defaults')
-    ck.not_decided('behaviour under whole histories (the induction over D1/D2/D4 steps is ours)', 'self-loops and parallel edges (invalid arguments)', 'enumeration order', 'the default methods built on top (append_graph, subgraph, plug: decided where other properties anchor them)')
+    ck.not_decided('behaviour under histories longer than the explored depth (the induction over D1/D2/D4 steps is ours)', 'self-loops and parallel edges (invalid arguments)', 'enumeration order', 'the default methods built on top (append_graph, subgraph, plug: decided where other properties anchor them)')
+    # D0 (round 2): both back ends interpreted under every sequence of editing operations a small model graph admits (bounded differential exploration)
+    from .. import graphsem, minirust as _mr
+    try:
+        plans = [('empty', 3, 3), ('hole-and-edges', 2, 4), ('named-beyond-the-end', 2, 4)] if ck.tier != 'thorough' else [('empty', 4, 3), ('hole-and-edges', 3, 4), ('named-beyond-the-end', 3, 4)]
+        tot_states = tot_ops = 0
+        first = None
+        for seed, depth, mv in plans:
+            mis, ns, no = graphsem.explore(facts, depth=depth, max_v=mv, seed=seed, limit=40000)
+            tot_states += ns
+            tot_ops += no
+            if mis and first is None:
+                first = '[from the %s graph] %s' % (seed, mis)
+        ck.ob('E3-backends', 'agreement-under-operation-sequences', first is None, 'quizx/src/vec_graph.rs, quizx/src/hash_graph.rs',
+              'the two back ends, the counts and the adjacency must stay consistent with the graph the operations describe: %s' % first, sample={'states': tot_states, 'operations': tot_ops})
+        ck.floor('E3-backends-states', tot_states, 900)
+        ck.note('back ends: %d distinct pairs of representations reached by %d operations (depth-bounded, from three seed graphs), every observable compared with a model after each' % (tot_states, tot_ops))
+    except (_mr.NoEval, _mr.Proceed, TypeError, KeyError, IndexError, AttributeError, ValueError) as ex:
+        ck.ob3('E3-backends', 'evaluable', None, 'quizx/src/vec_graph.rs, quizx/src/hash_graph.rs', 'the back ends are not evaluable by the interpreter (%s: %s): behaviour under operation sequences is not decided (the per-method rules below still are)' % (type(ex).__name__, ex))
     stats = {'methods': 0, 'paths': 0, 'mutators': 0, 'index_proved': 0, 'total_sites': 0}
     methods = {}
     for be in (VEC, HASH):
